@@ -255,7 +255,7 @@ class C11(Check):
         specs = [S.RES(K), S.RES(K, r=2, q=0), S.RES(K + 1, horizon=4), S.RES_SER(K), S.RES_SER(K + 1, horizon=4),
                  S.RES2(K, horizon=5 if K == 1 else 4), S.RES3L(K),
                  S.GRP2(K, horizon=4, resources=True), S.GRPPAR(K, horizon=4, resources=True), S.RES_MAINT(K + 1),
-                 S.RES_WINDOW(K + 1)]
+                 S.RES_WINDOW(K + 1), S.RES_FRAC(K)]
         return _line_jobs(specs, ['resources'], tier)
 
 
